@@ -132,6 +132,13 @@ func (g *generator) genStoreFlags(w *world, rows []vrow) []string {
 	}
 }
 
+func (g *generator) selKind() string {
+	if g.rng.Chance(0.35) {
+		return "EXAMINE"
+	}
+	return "SELECT"
+}
+
 func (g *generator) genAct() string {
 	switch x := g.rng.Pick(100); {
 	case x < 40:
@@ -413,7 +420,7 @@ func (g *generator) next(w *world) (op, bool, error) {
 		case x < 60:
 			return g.genAppend(w, si), true, nil
 		case x < 70:
-			return op{Kind: "SELECT", S: si, Box: boxNames[g.rng.Pick(len(boxNames))]}, true, nil
+			return op{Kind: g.selKind(), S: si, Box: boxNames[g.rng.Pick(len(boxNames))]}, true, nil
 		case x < 80:
 			return op{Kind: "EXPUNGE", S: si}, true, nil
 		case x < 90:
@@ -447,7 +454,19 @@ func (g *generator) next(w *world) (op, bool, error) {
 	case x < 62:
 		return op{Kind: "CLOSE", S: si, Box: boxNames[g.rng.Pick(len(boxNames))]}, true, nil
 	case x < 66:
-		return op{Kind: "SELECT", S: si, Box: boxNames[g.rng.Pick(len(boxNames))]}, true, nil
+		// re-select; a third of the time read-only, preferably a mailbox in which something is marked \Deleted
+		kind := g.selKind()
+		box := boxNames[g.rng.Pick(len(boxNames))]
+		if kind == "EXAMINE" {
+			for _, b := range w.m.Boxes {
+				for _, e := range b.Entries {
+					if e.Del && g.rng.Chance(0.5) {
+						box = b.Name
+					}
+				}
+			}
+		}
+		return op{Kind: kind, S: si, Box: box}, true, nil
 	case x < 78:
 		return op{Kind: "COPY", S: si, UID: uid, Set: g.genSet(view, uid), Box: otherBox(g.rng, s.box)}, true, nil
 	case x < 89:
